@@ -495,6 +495,12 @@ func histConform(r *rep.R, prop string, cfg histCfg, bound int, idx *int64) {
 	e := &env.Explorer{R: r, Bound: bound, Scenario: tag, Idx: idx,
 		Run:  func(ch *env.Chooser) any { return runHistory(cfg, ch) },
 		Stop: func() bool { return udpStop },
+		// the end of the caller's context is an asynchronous event for a real
+		// socket: whether it lands before or after the library has read a
+		// datagram that was already waiting is a matter of timing, so such
+		// executions have no single expected outcome and are left to the
+		// in-memory exploration (where the model fixes the order)
+		Filter: func(x *env.Chooser, i, alt int) bool { return x.Points[i].Menu[alt] != "context-expires" },
 	}
 	e.Check = func(ch *env.Chooser, obs any) {
 		o := obs.(*histObs)
